@@ -64,6 +64,9 @@ ALLOW_ESCAPE = {
         "plain data-structure constructor: the tree node is documented to "
         "hold the list it is given",
 }
+VALUE_CLASSES = (("rig.place_and_route.machine", "Machine"),
+                 ("rig.place_and_route.routing_tree", "RoutingTree"),
+                 ("rig.netlist", "Net"))
 RNG_METHODS = {"shuffle", "choice", "sample", "randint", "random",
                "getrandbits", "uniform", "randrange", "gauss", "choices"}
 
@@ -246,6 +249,58 @@ def check(program, rep):
                     rep.bad("C17-R4", inst, "foreign RNG %s" % unparse(
                         bad.func), "%s draws from %s instead of the "
                         "caller's generator" % (q, unparse(bad.func)), bad)
+    # the model objects handed to the place-and-route functions (machine,
+    # nets, routing trees): only their constructor and their item-assignment
+    # write the instance; a query that stores something on the instance makes
+    # later calls depend on earlier ones (and modifies an argument of every
+    # function that asks)
+    n_q = 0
+    for mname, cname in VALUE_CLASSES:
+        for q, fn in program.functions(mname):
+            if not q.startswith(cname + ".") or q.count(".") != 1:
+                continue
+            if fn.name in ("__init__", "__new__", "__setitem__",
+                           "__delitem__", "__setattr__"):
+                continue
+            a = fn.args.args
+            if not a or a[0].arg != "self":
+                continue
+            n_q += 1
+            writes = []
+            for n in ast.walk(fn):
+                tgts = n.targets if isinstance(n, ast.Assign) else \
+                    [n.target] if isinstance(n, (ast.AugAssign,
+                                                 ast.AnnAssign)) else []
+                for t in tgts:
+                    b_ = t
+                    while isinstance(b_, ast.Subscript):
+                        b_ = b_.value
+                    if isinstance(b_, ast.Attribute) and chain(b_) and \
+                            chain(b_).startswith("self."):
+                        writes.append(n)
+                if isinstance(n, ast.Call) and \
+                        isinstance(n.func, ast.Attribute) and \
+                        n.func.attr in ("append", "add", "update", "pop",
+                                        "remove", "clear", "extend",
+                                        "setdefault", "discard", "insert") \
+                        and chain(n.func.value) and \
+                        chain(n.func.value).startswith("self."):
+                    writes.append(n)
+            inst = "%s:%s" % (mname, q)
+            if writes:
+                rep.bad("C17-R2", inst, "query writes the instance: %s" %
+                        unparse(writes[0])[:60],
+                        "%s stores state on the object it is asked about "
+                        "(%s): the answer of a later call depends on "
+                        "earlier calls, and every function that takes the "
+                        "object as an argument and asks modifies it" % (
+                            q, unparse(writes[0])[:80]), writes[0])
+            else:
+                rep.ok("C17-R2", inst, "the query leaves the instance "
+                       "untouched", fn)
+    if n_q < 12:
+        raise AnalysisError("value classes: only %d query methods found" %
+                            n_q)
     # module-level mutable inventory (R2, positive control)
     inv = []
     for m in mods:
